@@ -779,8 +779,56 @@ func Eq(a, b *Term) *Term {
 	return normCmp(OEq, d)
 }
 
+// constLeaves reports whether t is an ite tree whose leaves are all constants.
+func constLeaves(t *Term, depth int) bool {
+	if t.Op == OConst {
+		return true
+	}
+	if t.Op == OIte && depth < 6 {
+		return constLeaves(t.Args[1], depth+1) && constLeaves(t.Args[2], depth+1)
+	}
+	return false
+}
+
+// liftIte rewrites  (k0 + k1*ite(c, a, b)) op 0  with constant leaves into a
+// boolean combination of the ite conditions (three-way Sign()/Cmp() encodings).
+func liftIte(d *Term, op Op) *Term {
+	var it *Term
+	k0, k1 := rat0, rat1
+	switch {
+	case d.Op == OIte:
+		it = d
+	case d.Op == OSum && len(d.Args) == 1 && d.Args[0].Op == OIte:
+		it, k0, k1 = d.Args[0], d.Rat, d.Coef[0]
+	default:
+		return nil
+	}
+	if !constLeaves(it, 0) {
+		return nil
+	}
+	var rec func(t *Term) *Term
+	rec = func(t *Term) *Term {
+		if t.Op == OConst {
+			v := new(big.Rat).Add(k0, new(big.Rat).Mul(k1, t.Rat))
+			switch op {
+			case OEq:
+				return BoolC(v.Sign() == 0)
+			case OLe:
+				return BoolC(v.Sign() <= 0)
+			default:
+				return BoolC(v.Sign() < 0)
+			}
+		}
+		return Ite(t.Args[0], rec(t.Args[1]), rec(t.Args[2]))
+	}
+	return rec(it)
+}
+
 // normCmp builds "d op 0" in a canonical shape "lhs op rhsConst".
 func normCmp(op Op, d *Term) *Term {
+	if r := liftIte(d, op); r != nil {
+		return r
+	}
 	// move the constant to the right: sum' op -c
 	var lhs, rhs *Term
 	if d.Op == OSum {
